@@ -30,6 +30,31 @@ def r2_inplace(rep, facts):
         vacant = any((x.get('path') or '').endswith('Entry::Vacant') for x in walk(b['body']) if x.get('k') in ('p_tuplestruct', 'p_struct'))
         # the value of the occupied entry is exchanged where it sits: mem::replace on the slot, or the entry's own insert (which is that)
         inplace = ('replace' in names and any(full == 'core::mem::replace' for _, full, _ in segs)) or any('OccupiedEntry' in full and seg_ == 'insert' for seg_, full, _ in segs)
+        # decided by evaluation where the function can be evaluated: on a container holding a, b, c the insertion over `b` leaves the keys a, b, c in this order with
+        # the new value under b and hands back the old one; a new key goes to the end.  The reading of the entry match above is the fallback.
+        try:
+            from .rules_containers import _table_model, fval, tag_of, _visible, unopt, I as I_
+            from .places import PlaceInterp
+            from .den import EvalPanic as _Ep
+            ty_ = d.rsplit('::', 1)[0]
+            inline = ty_.endswith('InlineTable')
+            mk = (lambda t: fval(t)) if inline else (lambda t: ('ctor', I_ + 'Value', (fval(t),)))
+            stored = lambda t: ('ctor', I_ + 'Value', (fval(t),))
+            verdicts = []
+            for q, want_state, want_ret in (('b', [('a', 'a'), ('b', 'NEW'), ('c', 'c')], 'b'), ('z', [('a', 'a'), ('b', 'b'), ('c', 'c'), ('z', 'NEW')], None)):
+                m_ = _table_model(ty_, [(n_, stored(n_)) for n_ in ('a', 'b', 'c')])
+                from .rules_containers import key as key_
+                arg_key = key_(q) if d.endswith('_formatted') else q
+                r_ = PlaceInterp(Evaluator(facts)).apply_fn(b, [m_, arg_key, mk('NEW')])
+                got_ret = tag_of(unopt(r_)) if unopt(r_) is not None else None
+                verdicts.append((_visible(m_) == want_state and got_ret == want_ret, q, _visible(m_), got_ret))
+            ok_model = all(v[0] for v in verdicts)
+            rep.check(R, d + '|in-place', ok_model, 'evaluated: over an existing key the value changes where it sits, a new key goes to the end',
+                      f'`{d}` evaluated on a container holding a, b, c: ' + '; '.join(f'inserting `{q}` leaves {st} and returns {rt}' for okv, q, st, rt in verdicts if not okv) +
+                      ': the key moves or its neighbours shift', facts.loc(b))
+            continue
+        except (Unanalysable, _Ep, TypeError, KeyError, IndexError, AttributeError, ValueError, ImportError):
+            pass
         rep.check(R, d + '|in-place', occupied and vacant and inplace and not rem, 'Occupied -> mem::replace(entry.get_mut(), item); Vacant -> insert',
                   f'`{d}` does not replace an occupied entry in place (calls: {sorted(names)[:8]}; removals: {rem}): the key would move or its neighbours shift', facts.loc(b))
     # Array::replace carries decor
@@ -56,6 +81,27 @@ def r2_inplace(rep, facts):
             if n.get('k') == 'mcall' and n.get('name') in ('replace_formatted',) or (n.get('k') == 'call' and last_seg((peel(n.get('f', {})).get('path') or '')) == 'replace'):
                 store_idx = i if store_idx is None else store_idx
     order_ok = assign_idx is not None and store_idx is not None and assign_idx < store_idx
+    # decided by evaluation where possible: replacing the middle element of [x, y, z], each with its own decor, leaves y's decor on the new value
+    try:
+        from .rules_containers import fval, tag_of, I as I_
+        from .places import PlaceInterp, deref as deref_
+        from .den import EvalPanic as _Ep, VecObj as VecObj_
+        NONE_ = ('ctor', 'core::option::Option::None')
+
+        def dv(tag):
+            v_ = fval(tag)
+            v_[2][0][2]['decor'] = ('struct', 'toml_edit::repr::Decor', {'prefix': ('ctor', 'core::option::Option::Some', (('raw', 'pre-' + tag),)), 'suffix': ('ctor', 'core::option::Option::Some', (('raw', 'suf-' + tag),))})
+            return v_
+        arr = ('struct', 'toml_edit::array::Array', {'values': VecObj_([('ctor', I_ + 'Value', (dv(t),)) for t in ('x', 'y', 'z')]), 'trailing': ('opaque',), 'trailing_comma': False,
+                                                      'decor': ('struct', 'toml_edit::repr::Decor', {'prefix': NONE_, 'suffix': NONE_}), 'span': NONE_})
+        PlaceInterp(Evaluator(facts)).apply_fn(b, [arr, 1, fval('NEW')])
+        el = deref_(deref_(arr[2]['values']).items[1])
+        fm = deref_(deref_(el[2][0])[2][0])
+        dec = deref_(fm[2]['decor'])
+        got = (tag_of(el), repr(deref_(dec[2]['prefix'])), repr(deref_(dec[2]['suffix'])))
+        carried = order_ok = got[0] == 'NEW' and 'pre-y' in got[1] and 'suf-y' in got[2]
+    except (Unanalysable, _Ep, TypeError, KeyError, IndexError, AttributeError, ValueError, ImportError):
+        pass
     rep.check(R, d + '|carries-decor', carried and order_ok, '*value.decor_mut() = existing_decor.clone() before storing',
               '`Array::replace` does not copy the replaced element\'s decor onto the new value before storing it (comments/whitespace around the element are lost)', facts.loc(b))
     # push / insert give the new element the default decoration (" " before it when the array already has elements, nothing when it is the
